@@ -15,8 +15,8 @@ import (
 
 type c01Target struct {
 	Name    string        `json:"name"`
-	Fails   []string      `json:"fails"`   // outcomes of the first probes
-	Never   bool          `json:"never"`   // never succeeds
+	Fails   []string      `json:"fails"` // outcomes of the first probes
+	Never   bool          `json:"never"` // never succeeds
 	OKStat  int           `json:"ok_status"`
 	OKLat   time.Duration `json:"ok_latency"`
 	Relapse bool          `json:"relapse"` // fails again after its first success
